@@ -44,5 +44,6 @@ RULES = [
     ("C08.newfields", lambda c, r: __import__("sa.rules.lfht2", fromlist=["x"]).rule_newfields(c, r, "C08.newfields")),
     ("C08.destroy2", lambda c, r: __import__("sa.rules.lfht2", fromlist=["x"]).rule_destroy2(c, r, "C08.destroy2")),
     ("C08.explicit_resize", lambda c, r: __import__("sa.rules.lfht2", fromlist=["x"]).rule_explicit_resize(c, r, "C08.explicit_resize")),
+    ("C08.count_approx", lambda c, r: __import__("sa.rules.lfht2", fromlist=["x"]).rule_count_approx(c, r, "C08.count_approx")),
 ]
 FLOORS = {}
